@@ -141,6 +141,19 @@ def gen_case(rng, thorough):
     n_inst = rng.choice([0, 1, 1, 2, 2, 3])
     edges = gen_edges(rng, n_nodes)
     insts = [gen_animal(rng, H, W, s, n_nodes, p_nan) for _ in range(n_inst)]
+    if n_inst >= 2 and rng.random() < 0.25:
+        # an animal without any usable edge point listed BEFORE a real one (NaN "padding" that is not at
+        # the end): either wholly missing, or missing exactly on the nodes the edge list uses
+        j = rng.randrange(n_inst - 1)
+        used = {a for e in edges for a in e}
+        if rng.random() < 0.5 or not used:
+            insts[j] = [(None, None)] * n_nodes
+        else:
+            insts[j] = [(None, None) if k in used else
+                        (p if visible(p) else (F(rng.randrange(1, max(2, 8 * (W - 1))), 8), F(rng.randrange(1, max(2, 8 * (H - 1))), 8)))
+                        for k, p in enumerate(insts[j])]
+        if not any(visible(p) for p in insts[-1]):
+            insts[-1] = [(F(rng.randrange(0, 16 * W), 16), F(rng.randrange(0, 16 * H), 16)) for _ in range(n_nodes)]
     c = {"kind": kind, "H": H, "W": W, "s": s, "sigma": sigma, "edges": edges, "insts": insts,
          "n_nodes": n_nodes, "flat": rng.random() < 0.7}
     if kind in ("gen", "pipe"):
